@@ -253,6 +253,8 @@ func vMin(a, b int) int {
 }
 
 func genC05(t *rapid.T) c05Case {
+	vLongNameOneIn = 3 // names longer than the columns, among them pairs that look alike once shortened
+	defer func() { vLongNameOneIn = 10 }()
 	exact := rapid.IntRange(0, 3).Draw(t, "exact") > 0
 	paths := rapid.Bool().Draw(t, "paths")
 	s := vGenScenario(t, vScenOpts{Paths: paths, MinDays: 1, MaxDays: 4, MaxEntries: 8, MaxRecipes: 12, MaxDepth: 4, NUnknown: 6, Exact: &exact, Window: 3, Notes: true})
